@@ -124,6 +124,12 @@ def norm_fp(s):
             m = re.match(r"'(\\.|[^\\'])'", s[i:])
             out.append(m.group(0))
             i += len(m.group(0))
+        elif c == '/' and s[i:i + 2] == '//':
+            j = s.find('\n', i)          # a comment is not behaviour
+            i = n if j < 0 else j
+        elif c == '/' and s[i:i + 2] == '/*':
+            j = s.find('*/', i + 2)
+            i = n if j < 0 else j + 2
         elif c.isspace():
             i += 1
         else:
